@@ -23,7 +23,6 @@ Conventions
 * Preconditions kept out of the domains (documented in the module, not spoken of by the property): shift counts
   n >= 0; powmod modulus b != 0 (docstring "for nonzero b").
 """
-import itertools
 from lib.native import Native
 
 
